@@ -676,7 +676,7 @@ def generate(rng, tier, mult):
     cases = []
     n_chain = 2 if not thorough else 8
     n_proc_quick = 4          # quick: real process pools on the chains and on a few random requests
-    n_resume = 10 if not thorough else n_req   # requests that also get runs on an existing store
+    n_resume = 8 if not thorough else n_req    # requests that also get runs on an existing store
     for q in range(n_chain + n_req):
         chain = q < n_chain
         req = _none_chain(rng) if chain else _request(rng)
@@ -748,10 +748,12 @@ def generate(rng, tier, mult):
         for k in range(0, len(runs), MAX_RUNS):
             cases.append({"req": req, "gens": gens, "runs": runs[k:k + MAX_RUNS]})
         # runs on an existing store: pre-filled run folder (cleanup=False) and / or fixed_indices
-        if chain or n_resume > 0:
-            n_resume -= 0 if chain else 1
+        scen = _resume_scenarios(rng, req, 2 if not thorough else 4)
+        rich = len(scen) > 1        # fixed_indices can be used on this request (an axis that is not reduced)
+        if chain or (rich and n_resume > 0) or (not rich and rng.random() < 0.15):
+            n_resume -= 1 if (rich and not chain) else 0
             resume = []
-            for pre, fx in _resume_scenarios(rng, req, 2 if not thorough else 4):
+            for pre, fx in scen:
                 try:
                     rsizes = _probe_resume(req, gens, pre, fx)
                 except Exception:  # noqa: BLE001
